@@ -61,6 +61,16 @@ fn alloc_shapes() -> Vec<(&'static str, String)> {
         "scratch-array-of-strings",
         "use vh\nlet n = vh_next_int()\nvar i = 0\nvar acc = 0\nwhile i < n {\n  let t: array<string> = []\n  var j = 0\n  while j < 9 {\n    t.push(\"k\" .. j)\n    j = j + 1\n  }\n  acc = acc + t.len() - 9\n  i = i + 1\n}\nvh_emit_int(acc)\n".to_string(),
     ));
+    // a reader that receives a large compound message per round: one instruction (the read) allocates hundreds of
+    // objects at once, so the collector has to keep up with bursts, not only with one small object per iteration
+    let recv = |elem_ty: &str, mk: &str, len: usize| {
+        format!(
+            "use vh\nlet n = vh_next_int()\nlet c: channel<array<{elem_ty}>> = channel()\nlet req: channel<int> = channel()\ntask {{\n  let big: array<{elem_ty}> = []\n  var j = 0\n  while j < {len} {{\n    big.push({mk})\n    j = j + 1\n  }}\n  var k = 0\n  while k < n {{\n    let z = req.read()\n    c.write(big)\n    k = k + 1\n  }}\n}}\nvar i = 0\nvar acc = 0\nwhile i < n {{\n  req.write(i)\n  let r = c.read()\n  acc = acc + r.len() - {len}\n  i = i + 1\n}}\nvh_emit_int(acc)\n"
+        )
+    };
+    v.push(("recv-big-message-of-tuples", recv("(int, int)", "(j, j)", 300)));
+    v.push(("recv-big-message-of-strings", recv("string", "\"s\" .. j", 120)));
+    v.push(("recv-big-message-of-arrays", recv("array<int>", "[j, j, j]", 200)));
     v.push((
         "push-pop-churn",
         "use vh\nlet n = vh_next_int()\nlet a: array<array<int>> = []\nvar i = 0\nvar acc = 0\nwhile i < n {\n  a.push([i])\n  let x = a.pop()\n  acc = acc + x[0] - i\n  i = i + 1\n}\nvh_emit_int(acc)\n".to_string(),
